@@ -7,7 +7,7 @@ from typing import Optional
 from ..engine.match import Spec, find_calls, loop_doms, require_call, require_guard, require_return, require_returns_table, residual
 from ..engine.repo import AnalysisError, FuncInfo, func_body
 from ..engine.report import Check
-from ..engine.terms import Norm, Scope, Term, show
+from ..engine.terms import C, Norm, Scope, Term, show
 from .common import CONS, HORIZON_CTX, short
 
 PARENT = "cs.block_by_hash[block.header.summary.previous_block_hash]"
@@ -133,25 +133,50 @@ def r05_7(ck: Check) -> None:
     s = ck.summ("skepticoin.pow.select_block_height", 0)
     require_return(ck, "R05.7", s, Spec(s, ("hsh", "h")), "int.from_bytes(hsh[:8], byteorder='big') % h", "height = first 8 bytes mod height")
     fi = ck.repo.func("skepticoin.pow.select_block_slice")
-    st = first_assignment(ck, fi, "start")
-    sps = Spec(ck.summ(fi.qualname, 0), ("hsh", "ser", "n"))
+    ssum = ck.summ(fi.qualname, 0)
+    from .common import loop_updates
+    from ..engine.terms import lin_add, mentions, substitute
+    head, ups, fi2 = loop_updates(ck, "skepticoin.pow.select_block_slice", 0)
+
+    def entry_value(name: str) -> Optional[Term]:
+        """value of a loop-carried name when the loop is entered (helpers extracted later are expanded)"""
+        ks = sorted((k for k in ssum.norm.lv_init if k[1] == name), key=lambda k: k[2])
+        return ssum.norm.lv_init[ks[0]] if ks else None
+    lv = lambda n: ("lv", n, 0)   # noqa
+    # per-iteration temporaries (assigned before every use) are not loop-carried
+    for n in [n for n in ups if not (head is not None and mentions(head, lv(n))) and not any(mentions(v, lv(n)) for v in ups.values())]:
+        del ups[n]
+    # an auxiliary down-counter R (R = n0 initially, R -= len(piece) whenever A += piece, A empty initially) satisfies R == n0 - len(A):
+    # eliminate it, so `while remaining > 0` and `while len(result) < length` are the same loop
+    for R in list(ups):
+        for A in list(ups):
+            if A == R or ups[A][0] != "cat" or len(ups[A][1]) != 2 or ups[A][1][0] != lv(A):
+                continue
+            piece = ups[A][1][1]
+            ln = lambda x: ("call", ("g", "builtin:len"), (x,), ())   # noqa
+            r0, a0 = entry_value(R), entry_value(A)
+            if ups[R] == lin_add(lv(R), ln(piece), -1) and r0 is not None and a0 in (C(b""), C("")):
+                inv = {lv(R): lin_add(r0, ln(lv(A)), -1)}
+                head = substitute(head, inv) if head is not None else None
+                ups = {k_: substitute(v, inv) for k_, v in ups.items() if k_ != R}
+                break
+    names = sorted(ups)
+    zero = [n for n in names if ups[n] == ("c", 0)]
+    other = [n for n in names if n not in zero]
+    sps = Spec(ssum, ("hsh", "ser", "n"))
     want = sps.term("int.from_bytes(hsh[8:12], byteorder='big') % len(ser)")
+    st = entry_value(zero[0]) if len(zero) == 1 else None
     construct = "pow.select_block_slice: start = int_be(hash[8:12]) % len(serialized_block)"
     if st == want:
         ck.ok("R05.7", construct, "slice start from the next 4 bytes", fi.loc)
     else:
         ck.violated("R05.7", construct, "start is %s" % (show(st) if st is not None else "not found"), fi.loc)
-    from .common import loop_updates
-    head, ups, fi2 = loop_updates(ck, "skepticoin.pow.select_block_slice", 0)
     spl = Spec(ck.summ(fi2.qualname, 0), ("hsh", "ser", "n"), extra={"result": ("lv", "result", 0), "start": ("lv", "start", 0)})
     want_head = spl.term("len(result) < n")
     want_res = spl.term("result + ser[start:start + n - len(result)]")
     construct = "pow.select_block_slice: while len(result) < length: result += block[start : start + length - len(result)]; start = 0 (wrap-around)"
-    names = sorted(ups)
     if len(names) == 2 and head is not None:
         # canonicalise the two carried names by role: the one reset to 0 is `start`
-        zero = [n for n in names if ups[n] == ("c", 0)]
-        other = [n for n in names if n not in zero]
         def ren(t):  # type: ignore
             if isinstance(t, tuple):
                 if t[:2] == ("lv", zero[0] if zero else "?"):
@@ -160,11 +185,12 @@ def r05_7(ck: Check) -> None:
                     return ("lv", "result", 0)
                 return tuple(ren(x) for x in t)
             return t
-        okl = len(zero) == 1 and len(other) == 1 and ren(head) == want_head and ren(ups[other[0]]) == want_res
+        okl = len(zero) == 1 and len(other) == 1 and ren(head) == want_head and ren(ups[other[0]]) == want_res \
+            and entry_value(other[0]) == C(b"")
     else:
         okl = False
     rets_s = ck.summ(fi2.qualname, 0).returns()
-    if okl and len(rets_s) == 1 and rets_s[0].term[0] == "lv":
+    if okl and len(rets_s) == 1 and rets_s[0].term[0] == "lv" and rets_s[0].term[1] == other[0]:
         ck.ok("R05.7", construct, "", fi2.loc)
     else:
         ck.violated("R05.7", construct, "loop is: while %s: %s" % (show(head) if head is not None else "?", {k: show(v)[:80] for k, v in ups.items()}), fi2.loc)
